@@ -171,7 +171,8 @@ fn random_txn(rng: &mut Rng, allow_delete_must_not_exist: bool) -> Case {
         used.push(name);
         let deref = rng.chance(65, 100);
         let current = loose.iter().find(|(n, _)| n == name).map(|(_, t)| t.clone());
-        let expected = match rng.below(12) {
+        let expected = match rng.below(16) {
+            12..=15 => "A".to_string(),
             0..=4 => "A".to_string(),
             5 => "E".to_string(),
             6 => "N".to_string(),
@@ -191,7 +192,7 @@ fn random_txn(rng: &mut Rng, allow_delete_must_not_exist: bool) -> Case {
     if rng.chance(90, 100) {
         for name in NAMES {
             let involved = used.contains(name) || loose.iter().any(|(_, t)| t.strip_prefix('@') == Some(*name));
-            let p = if involved { 40 } else { 6 };
+            let p = if involved { 50 } else { 6 };
             if rng.chance(p, 100) {
                 locks.push(name.to_string());
             }
